@@ -24,3 +24,4 @@ def run(ctx):
     ar.compat_checks_rule(ctx, 'R7.4')
     from . import callsigs as _cs
     _cs.general_rules(ctx, 'R7', ['writer.write', 'writer.write_simple', 'writer.write_multi', 'writer.partition_on_columns', 'writer.make_part_file', 'api.ParquetFile.write_row_groups', 'writer.write_common_metadata', 'writer.consolidate_categories'])
+    ar.single_pass_data_rule(ctx, 'R7.5')
